@@ -48,6 +48,11 @@ func engineError(msg string) abortPath { return abortPath{outEngineError, msg} }
 type targetPanic struct{ v Value }
 type runtimeErr struct{ msg string }
 
+type pendingAssert struct {
+	c     *Term
+	label string
+}
+
 type replayValue struct {
 	Name string
 	Kind string // int, ord, byte, uint64, bool
@@ -85,6 +90,7 @@ type Exec struct {
 	cover     map[string]bool
 	outLog    []string
 	nvar      int
+	seed      map[string]uint64
 	// per-path counters
 	nAssert, nDischarged, nConcrete int
 	nForks                          int
@@ -96,6 +102,9 @@ type Exec struct {
 	mutexHeld                       map[*Value]bool
 	callStack                       []*ssa.Function
 	inPanics                        int
+	merging                         int
+	pending                         []pendingAssert
+	noMerge                         bool
 	threads                         *threadState
 }
 
@@ -201,12 +210,19 @@ func (ex *Exec) nextPrefix(kind byte) decision {
 	return d
 }
 
-func (ex *Exec) spawn(alt decision) {
+func (ex *Exec) spawn(alt decision, m Model) {
 	p := make([]decision, len(ex.decisions)+1)
 	copy(p, ex.decisions)
 	p[len(ex.decisions)] = alt
 	ex.nForks++
-	ex.w.push(&workItem{job: ex.job, prefix: p})
+	it := &workItem{job: ex.job, prefix: p}
+	if m != nil {
+		it.seed = make(map[string]uint64, len(m))
+		for t, v := range m {
+			it.seed[t.Name] = v
+		}
+	}
+	ex.w.push(it)
 }
 
 // branch decides a symbolic condition, forking when both sides are feasible.
@@ -214,13 +230,17 @@ func (ex *Exec) branch(cond *Term) bool {
 	if v, ok := ex.known(cond); ok {
 		return v
 	}
+	if ex.merging > 0 {
+		panic(mergeBail{})
+	}
+	ex.flush()
 	if ex.inPrefix() {
 		d := ex.nextPrefix('b')
 		ex.addPC(cond, d.V == 1, d.F)
 		return d.V == 1
 	}
 	var tOK, fOK, tKnown, fKnown bool
-	var tModel Model
+	var tModel, fModel Model
 	if ex.modelOK {
 		if ex.tc.Eval(cond, ex.model, map[*Term]uint64{}) == 1 {
 			tOK, tKnown, tModel = true, true, ex.model
@@ -236,15 +256,18 @@ func (ex *Exec) branch(cond *Term) bool {
 	if !fKnown {
 		r, m := ex.check(ex.tc.Not(cond))
 		fOK = r == Sat
+		fModel = m
 		if fOK && !tOK {
 			tModel = m
 		}
 	} else if !tOK {
 		tModel = ex.model
+	} else {
+		fModel = ex.model
 	}
 	switch {
 	case tOK && fOK:
-		ex.spawn(decision{K: 'b', V: 0})
+		ex.spawn(decision{K: 'b', V: 0}, fModel)
 		ex.decisions = append(ex.decisions, decision{K: 'b', V: 1})
 		ex.model, ex.modelOK = tModel, tModel != nil
 		ex.addPC(cond, true, false)
@@ -271,11 +294,15 @@ func (ex *Exec) choice(n int) int {
 	if n == 1 {
 		return 0
 	}
+	if ex.merging > 0 {
+		panic(mergeBail{})
+	}
+	ex.flush()
 	if ex.inPrefix() {
 		return int(ex.nextPrefix('c').V)
 	}
 	for i := n - 1; i >= 1; i-- {
-		ex.spawn(decision{K: 'c', V: int64(i)})
+		ex.spawn(decision{K: 'c', V: int64(i)}, nil)
 	}
 	ex.decisions = append(ex.decisions, decision{K: 'c', V: 0})
 	return 0
@@ -284,6 +311,12 @@ func (ex *Exec) choice(n int) int {
 func (ex *Exec) ensureModel() {
 	if ex.modelOK {
 		return
+	}
+	if len(ex.pending) > 0 {
+		ex.flush()
+		if ex.modelOK {
+			return
+		}
 	}
 	r, m := ex.check(nil)
 	if r != Sat {
@@ -340,11 +373,17 @@ func (ex *Exec) newVar(name, kind string, s Sort) *Term {
 	}
 	t := ex.tc.Var(fmt.Sprintf("n%d_%s_%s", ex.nvar, clean, sfx), s)
 	ex.vars = append(ex.vars, t)
+	if ex.seed != nil {
+		if v, ok := ex.seed[t.Name]; ok {
+			ex.model[t] = v
+		}
+	}
 	ex.vals = append(ex.vals, replayValue{Name: name, Kind: kind, T: t})
 	return t
 }
 
 func (ex *Exec) assume(c Value, label string) {
+	ex.flush()
 	switch c := c.(type) {
 	case bool:
 		if !c {
@@ -377,6 +416,9 @@ func (ex *Exec) assume(c Value, label string) {
 }
 
 func (ex *Exec) fail(kind, label, detail string) {
+	if ex.merging > 0 {
+		panic(mergeBail{})
+	}
 	if ex.viol == nil {
 		if !ex.modelOK && !ex.inPrefix() {
 			func() {
@@ -426,16 +468,39 @@ func (ex *Exec) assert(c Value, label string) {
 			return
 		}
 		ex.nAssert++
-		r, m := ex.check(ex.tc.Not(c))
-		if r == Sat {
-			ex.model, ex.modelOK = m, true
-			ex.fail("assert", label, "solver found a counterexample")
-		}
-		ex.nDischarged++
+		ex.pending = append(ex.pending, pendingAssert{c, label})
 		ex.learn(c, true)
 	default:
 		panic(engineError(fmt.Sprintf("assert on %T", c)))
 	}
+}
+
+// flush decides the assertions collected since the last fork point with one
+// query: PC ∧ ¬(c1 ∧ … ∧ ck). It runs before anything that could fork, assume
+// or end the path, so no assertion is ever checked under a stronger path
+// condition than the one it was made under, except for implied literals.
+func (ex *Exec) flush() {
+	if len(ex.pending) == 0 {
+		return
+	}
+	pend := ex.pending
+	ex.pending = nil
+	cs := make([]*Term, len(pend))
+	for i, p := range pend {
+		cs[i] = p.c
+	}
+	r, m := ex.check(ex.tc.Not(ex.tc.And(cs...)))
+	if r == Sat {
+		ex.model, ex.modelOK = m, true
+		memo := map[*Term]uint64{}
+		for _, p := range pend {
+			if ex.tc.Eval(p.c, m, memo) != 1 {
+				ex.fail("assert", p.label, "solver found a counterexample")
+			}
+		}
+		ex.fail("assert", pend[0].label, "solver found a counterexample (assertion group)")
+	}
+	ex.nDischarged += len(pend)
 }
 
 // ---------- running one path ----------
@@ -453,6 +518,9 @@ func (w *Worker) runPath(it *workItem) (res pathResult) {
 		lits: map[*Term]bool{}, globals: map[*ssa.Global]*Value{}, inited: map[*ssa.Package]bool{},
 		cover: map[string]bool{}, assumes: map[string]bool{}, intrinsicsUsed: map[string]bool{},
 		funcs: map[*ssa.Function]bool{}, pool: map[*Value][]Value{}, mutexHeld: map[*Value]bool{}}
+	if it.seed != nil {
+		ex.seed, ex.model, ex.modelOK = it.seed, Model{}, true
+	}
 	res.ex = ex
 	defer func() {
 		res.decisions = ex.decisions
@@ -489,6 +557,7 @@ func (w *Worker) runPath(it *workItem) (res pathResult) {
 	}()
 	fn := it.job.entry
 	ex.callFunction(nil, fn, nil)
+	ex.flush()
 	if ex.inPrefix() {
 		panic(engineError("re-execution ended before consuming its decision prefix"))
 	}
